@@ -267,12 +267,8 @@ func (rl *Shell) viBackwardChar() {
 
 	vii := rl.Iterations.Get()
 
-	if rl.cursor.Pos() == 0 {
-		return
-	}
-
 	for i := 1; i <= vii; i++ {
-		if (*rl.line)[rl.cursor.Pos()-1] == '\n' {
+		if rl.cursor.Pos() == 0 || (*rl.line)[rl.cursor.Pos()-1] == '\n' {
 			break
 		}
 
